@@ -25,6 +25,18 @@ pending = {
  'C18': "check not built yet (honest-peer session harness planned: DESIGN 6 C18)",
  'C19': "harness written (props/C19) but the exploration does not finish within a usable budget yet; not registered until it runs clean",
 }
+
+claims.update({
+ 'C03': ('model_checking', "The real Syncer (Start, verifier, sync loop thread, Head() threads) is executed over a specification store and a contract-abiding getter; G gossip deliveries of any canonical header, of forged headers with an unconstrained 64-bit height (solver-decided), wrong-chain / future-dated headers and forks of already stored heights, interleaved at every getter request with the sync loop; store contiguity, batch shape, no-overwrite, refusal and never-stored clauses checked after every delivery and at quiescence.", "Schedules: pre-emption only at gates (before deliveries, inside getter requests), bound 1 quick / 2 thorough; K<=4, G<=2 quick. The real Store is C04's subject."),
+ 'C05': ('model_checking', "GetRangeByHeight through the real session / peer queue / prepareRequests / processResponses / VerifyRange code for every (from,to) around a short chain incl. unconstrained degenerate 'to' values (solver-decided), chunk sizes {1,2,3,64}, 1-2 (3) peers and one (two) misbehaving answers from a 12-entry catalogue per run.", "Network cut at sendMessage (its response-count cap is therefore outside); bounded misbehaviour budget; N<=6 quick."),
+ 'C06': ('model_checking', "Clean restart (Stop directly after the last operation, compared with a synced reference run of the same history), crash at EVERY prefix of the datastore commit log, and windows of 1-3 failing writes, over histories of appends, syncs and deletions on the real Store, four configurations.", "Atomicity of one commit / one direct write is the assumed datastore contract; K<=3, L<=2 quick; one schedule per history."),
+ 'C07': ('model_checking', "Bounded liveness at quiescence: valid heads (adjacent, skipping, bursts during a running sync, also learned through concurrent Head() calls), prefixes of any length from the getter and up to 2 getter errors; the store head must reach the newest verified head, State()/SyncWait must report completion, an error must be reported and nothing lost otherwise.", "'Eventually' = quiescence of the bounded run; K<=7, G<=3 quick; schedules as in C03."),
+ 'C12': ('model_checking', "Readers (2) blocked in GetByHeight vs appends (contiguous, gapped, out of order, mixed batches) and per-reader cancellations on the real Store; scheduling points at every datastore operation; the lost wake-up found here was fixed (KNOWN_FINDINGS).", "Pre-emption only at datastore operations / writer gates, bound 1 quick, 2 thorough; data races outside."),
+ 'C17': ('model_checking', "Two writers, a reader and an optional tail-side / whole-range deleter on the real Store: monotone Head/Height, Head retrievable, read-your-synced-writes, equality with a sequential execution, gap-free chain after racing deletion.", "Sequentially consistent interleavings with pre-emption at datastore operations only (bound 1 quick; 2-3 thorough); 3-4 writers, real-thread schedules and the race detector are outside this technique."),
+ 'C18': ('model_checking', "Client session code composed with the real ExchangeServer.handleRangeRequest as each peer's behaviour: every range length 1..3 x chunk, chunk sizes {1,2,3} ({..5,64} thorough), 1-2 (3) peers, every availability prefix and benign fault (prefix once, timeout once, disconnect, stall after a prefix) with one fault-free capable peer.", "Wire encoding (serde/protobuf) and libp2p streams are not encoded: the 'unchanged through the wire' clause is covered only up to the HeaderResponse structs."),
+})
+for k in ['C03','C05','C06','C07','C12','C17','C18']:
+    pending.pop(k, None)
 checks=[]
 for pid,(cat,text,note) in sorted(claims.items()):
     checks.append({
